@@ -3,7 +3,9 @@
 package dhcp4_spoofer
 
 import (
+	"bytes"
 	"net/netip"
+	"os"
 	"sort"
 	"time"
 
@@ -78,6 +80,44 @@ func (h *Handler) VerifAge(clientID []byte, d time.Duration) bool {
 	}
 	l.DHCPExpiry = l.DHCPExpiry.Add(-d)
 	return true
+}
+
+// VerifAgeFile does on the lease file what VerifAge does in memory: the record of clientID (if the file holds one)
+// gets its expiry moved into the past by d, as if the ACK that wrote it had happened d earlier.  Everything else in
+// the file is kept; it is decoded and encoded with the record type saveConfig / loadByteArray use.
+func (h *Handler) VerifAgeFile(clientID []byte, d time.Duration) bool {
+	h.Lock()
+	defer h.Unlock()
+	if h.filename == "" {
+		return false
+	}
+	source, err := os.ReadFile(h.filename)
+	if err != nil {
+		return false
+	}
+	table := struct {
+		Net1   *SubnetConfig
+		Net2   *SubnetConfig
+		Leases []Lease
+	}{}
+	if err := yaml.Unmarshal(source, &table); err != nil {
+		return false
+	}
+	found := false
+	for i := range table.Leases {
+		if bytes.Equal(table.Leases[i].ClientID, clientID) {
+			table.Leases[i].DHCPExpiry = table.Leases[i].DHCPExpiry.Add(-d)
+			found = true
+		}
+	}
+	if !found {
+		return false
+	}
+	stream, err := yaml.Marshal(&table)
+	if err != nil {
+		return false
+	}
+	return os.WriteFile(h.filename, stream, os.ModePerm) == nil
 }
 
 // VerifSave rewrites the lease file the way handleRequest does after an ACK.
